@@ -65,6 +65,10 @@ def pMOp : P MOp := do
   | "A" => do let r ← pNat; let c ← pNat; let e ← pRat; pure (.assign r c e)
   | "DR" => do let i ← pNat; pure (.delRow i)
   | "DC" => do let j ← pNat; pure (.delCol j)
+  | "RR" => do let i ← pNat; pure (.retRow i)
+  | "RC" => do let j ← pNat; pure (.retCol j)
+  | "SM" => do let i ← pNat; let j ← pNat; pure (.subM i j)
+  | "O" => pure .orthogonal | "I" => pure .invertible | "AY" => pure .antisym | "DG" => pure .diag
   | _ => failure
 
 def ansL : Except Err (List Rat) → String
